@@ -14,6 +14,24 @@ TEXT = {
         "level_text": "The same generated types, values and configurations as C01, but the produced bytes are judged by a reference implementation that shares no code with the library: container framing (magic, metadata, exact counts and sizes, codec, sync, CRC, no trailing bytes), exact-fit decoding of each block under the embedded schema alone, and datum-by-datum agreement with the values written including which union branch was used.",
         "level_note": "Trusts harness/ref (self-tested: encode/decode round trip over all encoding choices, agreement with the repository's checked-in Avro files). Where the property text does not decide null vs value (DESIGN §4.3) either branch is accepted.",
     },
+    "C03": {
+        "technique": "property-based testing (rapid): grammar-based generation of schema x datum x spec-legal wire encoding x compatible Go target; differential oracle (files written by an independent reference writer, decoded values compared with the generated datum)",
+        "design_ref": "DESIGN.md §5 C03, §4.4",
+        "level_text": "Generated record schemas over the supported subset, datums, every block-partition/size-prefix choice for each collection, null in either union position, any partition into file blocks and all codecs are written by the reference writer; the file is read into a generated compatible struct (pointer depth, integer/float width, wrappers, fixed arrays, time.Time) and each value must agree with the datum, or ReadFile must fail when an integer does not fit its field.",
+        "level_note": "Trusts harness/ref as writer and the compatibility table in gen.Target. float32 narrowing of non-representable doubles is not asserted.",
+    },
+    "C04": {
+        "technique": "property-based testing (rapid) with a metamorphic oracle: projected decode vs full decode of the same generated file; Skip vs Read byte consumption",
+        "design_ref": "DESIGN.md §5 C04",
+        "level_text": "For generated files (as C03) the full target is projected by deleting, permuting and adding fields at every depth; both decodes must deliver the same records on every surviving path and leave added fields zero. Each datum is also wrapped with a trailing sentinel so that Codec.Skip, Codec.Read and a decode that skips the datum must all consume exactly the datum's bytes.",
+        "level_note": "The full decode is taken as the reference (C03 judges it). Files with values that do not fit the full target are out of domain.",
+    },
+    "C13": {
+        "technique": "property-based testing (rapid): generated caller schemas x covering Go types x in-range values; differential oracle (reference decoder reads Codec.Write output) plus Read-after-Write inversion",
+        "design_ref": "DESIGN.md §5 C13",
+        "level_text": "Caller-written schemas (null first or second, every numeric width, fixed, nested records, arrays, maps, date/timestamp logical types) are paired with generated covering Go structs; every written value must decode with the reference decoder, with an exact fit, to a datum that denotes the Go value, and Codec.Read must invert it.",
+        "level_note": "Domain restricted to unions of null with one type and nullability-aligned targets (see DESIGN). Timestamps accept floor or truncation to the unit.",
+    },
     "C14": {
         "technique": "property-based testing (rapid): grammar-based generation of schema documents with layout/extra-attribute metamorphosis, parse/serialise round-trip against a reference parser; native fuzz target in thorough",
         "design_ref": "DESIGN.md §5 C14",
